@@ -96,18 +96,24 @@ theorem disconnect_QS (env : Env) (d : Nat) (lo : Option String) :
       have hup : isDisc c1.state = false := by
         have := plain_track_up hp.2 (s := (discReset c).state) h
         rw [← hp.1] at this; exact this
+      have hq1 := (plain_quiet hp.2).1
+      have hf1 := (plain_quiet hp.2).2
+      obtain ⟨h1, h2, h3⟩ := discTail_QSpec c1 d hd
       cases r with
       | error ex =>
-        refine ⟨(plain_quiet hp.2).1, ?_, fun _ h => by cases h⟩
-        show isDisc c1.state = flagAfter false e1
-        rw [(plain_quiet hp.2).2]; exact hup
+        refine ⟨?_, ?_, fun _ _ _ => trivial⟩
+        · show quiet false (e1 ++ [Effect.caught ex] ++ (discTail c1 d).2) = true
+          rw [quiet_append, quiet_append, hq1, hf1, flagAfter_append, hf1]
+          simp [quiet, flagAfter, Effect.busy, Effect.loud, h1]
+        · show isDisc (discTail c1 d).1.state = flagAfter false (e1 ++ [Effect.caught ex] ++ (discTail c1 d).2)
+          rw [flagAfter_append, flagAfter_append, hf1]
+          simp [flagAfter, h2, h3]
       | ok u =>
-        obtain ⟨h1, h2, h3⟩ := discTail_QSpec c1 d hd
         refine ⟨?_, ?_, fun _ _ _ => trivial⟩
         · show quiet false (e1 ++ (discTail c1 d).2) = true
-          rw [quiet_append, (plain_quiet hp.2).1, (plain_quiet hp.2).2, h1]; rfl
+          rw [quiet_append, hq1, hf1, h1]; rfl
         · show isDisc (discTail c1 d).1.state = flagAfter false (e1 ++ (discTail c1 d).2)
-          rw [flagAfter_append, (plain_quiet hp.2).2, h2]; exact h3
+          rw [flagAfter_append, hf1, h2]; exact h3
 
 theorem disconnect_calm (env : Env) (d : Nat) (lo : Option String) : CalmFrom (disconnect env d lo) :=
   ⟨fun c hc => by rw [disconnect_of_disc env d lo c hc]; exact ⟨rfl, hc⟩⟩
